@@ -70,11 +70,40 @@ def c20_family(seed, quick):
         out.append(render({"x": 1, "f": 1}, [[wk, "spawn 1", "join 1"], [f"blockon 0 {mode}"]]))
         # two futures, two block_on calls
         out.append(render({"x": 2, "f": 2}, frame([[f"blockon 1 {mode}", wk]], [f"blockon 0 {mode}", wk.replace(" 0", " 1")], [])))
+    # two wakers whose payload (a relaxed counter) reaches the future only through the wake (mode 2)
+    for w1, w2 in ((["fadd 0 1 rlx", "wakeq 0"], ["fadd 0 1 rlx", "wakeq 0"]),
+                   (["fadd 0 1 rlx", "wakeq 0"], ["fadd 0 1 rlx", "wakeq 0", "wakeq 0"])):
+        out.append(render({"x": 1, "f": 1}, frame([w1, w2], ["blockon 0 2"], [])))
+        out.append(render({"x": 1, "f": 1}, frame([["blockon 0 2"], w2], w1, [])))
+    out.append(render({"x": 1, "f": 1}, frame([["fadd 0 1 rlx", "wakeq 0", "fadd 0 1 rlx", "wakeq 0"]], ["blockon 0 2"], [])))
+    # the same future driven by two consecutive block_on calls while a registration of the first call is still in
+    # the shared AtomicWaker (mode 3): wake must reach the most recently registered waker
+    for second in (3, 1):
+        out.append(render({"x": 1, "f": 1}, [["blockon 0 4", "spawn 1", f"blockon 0 {second}", "join 1", "awtake 0"], ["awwake 0"]]))
+        out.append(render({"x": 1, "f": 1}, [["spawn 1", "blockon 0 4", f"blockon 0 {second}", "join 1", "awtake 0"], ["awwake 0"]]))
+    out.append(render({"x": 1, "f": 1}, [["blockon 0 4", "blockon 0 4", "spawn 1", "blockon 0 3", "join 1", "awtake 0"], ["awwake 0"]]))
+    out.append(render({"x": 1, "f": 1}, [["spawn 1", "blockon 0 3", "join 1", "awtake 0"], ["awwake 0"]]))
+    out.append(render({"x": 1, "f": 1}, [["blockon 0 4", "awtake 0"]]))
+    out.append(render({"x": 1, "f": 1}, [["blockon 0 4"]]))          # the registration is leaked
     # nobody ever wakes: a deadlock must be reported
     out.append("cfg x=1 f=1 | T0: blockon 0 0")
     out.append("cfg x=1 f=1 | T0: blockon 0 1")
     if len(out) > (60 if quick else 10 ** 6):
-        keep = out[-8:]
-        idx = sorted(range(len(out) - 8), key=lambda i: (r.next(), i))[:52]
+        keep = out[-18:]
+        idx = sorted(range(len(out) - 18), key=lambda i: (r.next(), i))[:42]
         out = [out[i] for i in sorted(idx)] + keep
+    return list(dict.fromkeys(out))
+
+
+def c20_bounded(seed, quick):
+    """programs explored under a preemption bound (they are too large otherwise): only 'every explored execution
+    shows an outcome of the reference' is judged.  Their visible results are RMW results and flags."""
+    out = []
+    two = ["wclone 0", "fadd 0 1 rlx", "wakeh 0"]
+    for b in ((1, 2) if quick else (1, 2, 3)):
+        # two wakers holding their own clones; what they publish (a relaxed counter) reaches the future only
+        # through the wake: the second wake must carry its causality although the first is still pending
+        out.append(render({"bound": b, "x": 1, "f": 1}, frame([two, two], ["blockon 0 2"], [])))
+        out.append(render({"bound": b, "x": 1, "f": 1}, frame([two, ["wclone 0", "fadd 0 1 rlx", "wakeh 0", "wakeq 0"]], ["blockon 0 2"], [])))
+        out.append(render({"bound": b, "x": 1, "f": 1}, frame([["blockon 0 2"], two], two, [])))
     return list(dict.fromkeys(out))
